@@ -475,3 +475,111 @@ def c03_loading(tier, rng):
                 "obligation": "C03.reference_loading", "inputs": {"seed": base + k}, "observed": p[:3],
                 "required": "reference exons loaded verbatim", "replay_call": "contracts.c_models:replay_loading"}]}
     return {"cases": n, "bound": "%d random annotations" % n, "violations": [], "samples": [{"seed": base}]}
+
+
+# ---- one gene dumped from several read islands: the gene record is written once and must hold for all later dumps ------------------------------
+def _shared_gene_case(seed):
+    """2-3 dump calls (read islands of one annotated gene G, span known from the annotation), each with 1-2 models attributed to G; some models
+    overhang the annotated span (novel first / last exons). Returns (problems, description)."""
+    import os, random, shutil, tempfile, types
+    rng = random.Random(seed)
+    tp = native.repo_import("src/transcript_printer.py")
+    gi_mod = native.repo_import("src/gene_info.py")
+    idp = native.repo_import("src/id_policy.py")
+    base = os.path.join(os.path.dirname(os.path.dirname(os.path.abspath(__file__))), ".run")
+    os.makedirs(base, exist_ok=True)
+    d = tempfile.mkdtemp(prefix="gffs", dir=base)
+    problems, desc = [], {"calls": []}
+    try:
+        pr = tp.GFFPrinter(d, "s", idp.FeatureIdStorage(idp.SimpleIDDistributor()), output_r2t=False)
+        glo, ghi = 1000, 9000
+        strand = rng.choice("+-")
+        ref = gi_mod.TranscriptModel("chr1", strand, "G.ref", "G", [(glo, glo + 200), (ghi - 200, ghi)], gi_mod.TranscriptModelType.known)
+        dumped = {}
+        n_calls = rng.randint(2, 3)
+        for call in range(n_calls):
+            models = []
+            # island `call` covers its own third of the gene; a model may start before the gene (first island) or end after it (last island)
+            a0 = glo + (ghi - glo) * call // n_calls
+            b0 = glo + (ghi - glo) * (call + 1) // n_calls - 300
+            for m in range(rng.randint(1, 2)):
+                a = a0 + rng.randint(0, 100)
+                b = b0 - rng.randint(0, 100)
+                if call == 0 and rng.random() < .4:
+                    a = glo - rng.randint(50, 600)
+                if call == n_calls - 1 and rng.random() < .4:
+                    b = ghi + rng.randint(50, 600)
+                mid = (a + b) // 2
+                ex = [(a, mid - 150), (mid + 150, b)]
+                t = "t%d_%d" % (call, m)
+                models.append(gi_mod.TranscriptModel("chr1", strand, t, "G", ex, gi_mod.TranscriptModelType.novel_not_in_catalog))
+                dumped[t] = (call, ex)
+            ginfo = gi_mod.GeneInfo.from_models([ref], 0)
+            ginfo.gene_db_list = [types.SimpleNamespace(id="G", start=glo, end=ghi, seqid="chr1")]
+            ginfo.gene_regions = {}
+            pr.dump(ginfo, models)
+            desc["calls"].append([(m_.transcript_id, m_.exon_blocks[0][0], m_.exon_blocks[-1][1]) for m_ in models])
+        pr.out_gff.flush()
+        gene_lines = []
+        for line in open(pr.model_fname):
+            if line.startswith("#"):
+                continue
+            f = line.rstrip("\n").split("\t")
+            if f[2] == "gene" and 'gene_id "G"' in f[8]:
+                gene_lines.append((int(f[3]), int(f[4]), f[6]))
+        if len(gene_lines) != 1:
+            problems.append("gene G has %d gene records %s" % (len(gene_lines), gene_lines))
+        else:
+            g = gene_lines[0]
+            if g[2] != strand:
+                problems.append("gene record on strand %s, transcripts on %s" % (g[2], strand))
+            for t, (call, ex) in sorted(dumped.items()):
+                if not (g[0] <= ex[0][0] and ex[-1][1] <= g[1]):
+                    problems.append("gene record G spans %d-%d but its transcript %s (dump %d) spans %d-%d" % (g[0], g[1], t, call, ex[0][0], ex[-1][1]))
+    finally:
+        shutil.rmtree(d, ignore_errors=True)
+    return problems, desc
+
+
+def kf_gene_record_written_with_first_island(inputs):
+    """known-finding class: exactly one gene record, and every transcript it fails to contain was dumped in a LATER call than the first one
+    (the record is streamed with the first island of the gene and cannot grow afterwards)"""
+    import re
+    problems, desc = _shared_gene_case(inputs["seed"])
+    if not problems:
+        return False
+    for p in problems:
+        m = re.match(r"gene record G spans \d+-\d+ but its transcript \S+ \(dump (\d+)\) spans", p)
+        if not m or int(m.group(1)) == 0:
+            return False
+    return True
+
+
+def replay_shared_gene(d):
+    p, desc = _shared_gene_case(d["inputs"]["seed"])
+    return (not p), "seed %s %s: %s" % (d["inputs"]["seed"], desc, p or "one gene record containing all transcripts")
+
+
+@bounded("C03.gene_record_across_dumps", ["C03"], note="the real GFFPrinter.dump called for 2-3 read islands of ONE annotated gene, with models "
+         "that may overhang the annotated span: exactly one gene record, on the transcripts' strand, containing every transcript attributed to "
+         "the gene whichever island it came from")
+def c03_shared_gene(tier, rng):
+    n = 150 if tier == "quick" else 5000
+    base = rng.randrange(10 ** 9)
+    reps = {}
+    for k in range(n):
+        try:
+            p, desc = _shared_gene_case(base + k)
+        except Exception as e:
+            p, desc = ["exception %s: %s" % (type(e).__name__, e)], {}
+        if p:
+            cls = False
+            try:
+                cls = kf_gene_record_written_with_first_island({"seed": base + k})
+            except Exception:
+                pass
+            reps.setdefault(cls, {"obligation": "C03.gene_record_across_dumps", "inputs": {"seed": base + k}, "observed": p[:3] + [str(desc)],
+                                  "required": "one gene record that contains all transcripts of the gene", "replay_call": "contracts.c_models:replay_shared_gene"})
+            if False in reps:
+                break
+    return {"cases": n, "bound": "%d random island sequences" % n, "violations": [reps[c] for c in sorted(reps)], "samples": [{"seed": base}]}
